@@ -567,9 +567,71 @@ static int splice_works(void)
 	return ok;
 }
 
+#include <dirent.h>
+static int many;	/* many=N in the B line: N pumps stalled at the same time, then drained */
+
+static int count_fds(void)
+{
+	DIR *d = opendir("/proc/self/fd");
+	int n = 0;
+
+	if (d == NULL)
+		return -1;
+	while (readdir(d) != NULL)
+		n++;
+	closedir(d);
+	return n;
+}
+
+static void noop_bands(void *cookie, int pollin, int pollout) { }
+
+/* N relays hold data at the same time because their outputs are full; then the consumers
+ * drain, the producers close, everything is pumped to the end and destroyed.  Plain calls,
+ * nothing scripted: what is observed is the descriptor balance of the whole run. */
+static int many_pumps(int n)
+{
+	struct iv_fd_pump *ip = calloc(n, sizeof *ip);
+	int (*fd)[4] = calloc(n, sizeof *fd);	/* in.rd in.wr out.rd out.wr */
+	char junk[4096];
+	int bad = 0;
+
+	memset(junk, 'x', sizeof junk);
+	for (int i = 0; i < n; i++) {
+		if (mkpair('s', &fd[i][0], &fd[i][1]) < 0 || mkpair('s', &fd[i][2], &fd[i][3]) < 0)
+			return -1;
+		while (__real_write(fd[i][3], junk, sizeof junk) > 0)
+			;			/* output full */
+		IV_FD_PUMP_INIT(&ip[i]);
+		ip[i].from_fd = fd[i][0];
+		ip[i].to_fd = fd[i][3];
+		ip[i].cookie = NULL;
+		ip[i].set_bands = noop_bands;
+		ip[i].flags = IV_FD_PUMP_FLAG_RELAY_EOF;
+		iv_fd_pump_init(&ip[i]);
+		if (__real_write(fd[i][1], junk, 1000) != 1000)
+			bad++;
+		iv_fd_pump_pump(&ip[i]);	/* takes a buffer, cannot get rid of the data */
+	}
+	for (int i = 0; i < n; i++) {
+		close(fd[i][1]);		/* end of input */
+		for (int k = 0; k < 2000; k++) {
+			while (__real_read(fd[i][2], junk, sizeof junk) > 0)
+				;
+			if (iv_fd_pump_pump(&ip[i]) <= 0)
+				break;
+		}
+		iv_fd_pump_destroy(&ip[i]);
+		close(fd[i][0]); close(fd[i][2]); close(fd[i][3]);
+	}
+	free(ip);
+	free(fd);
+	return bad;
+}
+
 static void run_script(void)
 {
 	const char *why = "ok";
+	int base = count_fds();
 
 	signal(SIGPIPE, SIG_IGN);
 	force_rw = strcmp(mode, "sp") != 0;
@@ -585,7 +647,11 @@ static void run_script(void)
 		if (!strcmp(w, "setup"))
 			break;
 	}
+	if (many > 0)
+		many_pumps(many);
 	iv_deinit();
+	/* everything the library opened for this thread is closed again */
+	ev("{\"e\":\"Fds\",\"base\":%d,\"after\":%d,\"many\":%d}", base, count_fds(), many);
 	ev("{\"e\":\"End\",\"why\":\"%s\",\"sig\":0}", why);
 }
 
@@ -626,8 +692,10 @@ int main(int argc, char **argv)
 		switch (tok[0][0]) {
 		case 'B':
 			reset_script();
+			many = 0;
 			snprintf(script_id, sizeof script_id, "%s", nt > 1 ? tok[1] : "?");
 			for (int i = 2; i < nt; i++) {
+				if (!strncmp(tok[i], "many=", 5)) many = atoi(tok[i] + 5);
 				if (!strncmp(tok[i], "mode=", 5)) snprintf(mode, sizeof mode, "%s", tok[i] + 5);
 				else if (!strncmp(tok[i], "tr=", 3)) snprintf(trsp, sizeof trsp, "%s", tok[i] + 3);
 			}
